@@ -6,7 +6,15 @@ ID=$1; D=$(realpath $2); TIER=${3:-quick}
 W=$(mktemp -d /tmp/verif-seed-XXXX)
 rsync -a --exclude .git --exclude __pycache__ /repo/ $W/
 timeout 300 /venv/bin/python -B $D/demo.py $W >/dev/null 2>&1; echo "demo on clean tree: exit $?"
-if ! patch -p1 -s -d $W -i $D/patch.diff; then echo "PATCH DOES NOT APPLY to current /repo"; rm -rf $W; exit 3; fi
+if ! patch -p1 -s -d $W -i $D/patch.diff >/dev/null 2>&1; then
+  # the tree has moved since the change was made: fall back to the commit it was made on (SEED_BASE or meta.json base_commit)
+  BASE=${SEED_BASE:-$(/venv/bin/python -c "import json,sys; print(json.load(open('$D/meta.json')).get('base_commit',''))" 2>/dev/null)}
+  if [ -z "$BASE" ]; then echo "PATCH DOES NOT APPLY to current /repo (no base commit known)"; rm -rf $W; exit 3; fi
+  echo "patch does not apply to HEAD; using base commit $BASE"
+  rm -rf $W; W=$(mktemp -d /tmp/verif-seed-XXXX); git -C /repo archive $BASE | tar -x -C $W
+  timeout 300 /venv/bin/python -B $D/demo.py $W >/dev/null 2>&1; echo "demo on base tree: exit $?"
+  if ! patch -p1 -s -d $W -i $D/patch.diff; then echo "PATCH DOES NOT APPLY to base either"; rm -rf $W; exit 3; fi
+fi
 timeout 300 /venv/bin/python -B $D/demo.py $W >/dev/null 2>&1; echo "demo on patched tree: exit $?"
 (cd $W && PYTHONPATH=$W/src PYTHONDONTWRITEBYTECODE=1 /venv/bin/python -m pytest -q -x -p no:cacheprovider tests 2>&1 | tail -1)
 S=$(date +%s)
